@@ -19,7 +19,7 @@ PROPS = {
     "C10": dict(verus=["U-TS"], kani=["U-MEM"], bounded=["U-PARSE-B"], findings=[]),
     "C11": dict(verus=["U-TS"], kani=[], bounded=["U-PARSE-B"], findings=[("F-C11-1", "verus", "U-TS", "F-C11-1")]),
     "C12": dict(verus=["U-TS"], kani=[], bounded=["U-PARSE-B"], findings=[]),
-    "C13": dict(verus=["U-TS"], kani=["U-ESC"], bounded=[], findings=[]),
+    "C13": dict(verus=["U-TS"], kani=["U-ESC"], bounded=["U-PARSE-B"], findings=[]),
     "C14": dict(verus=["U-SM", "U-TS", "U-SER"], kani=[], bounded=["U-PARSE-B"], findings=[]),
     "C15": dict(verus=["U-SM", "U-TS", "U-SER", "U-NTH", "U-ESCQ"], kani=["U-MEM", "U-TBS", "U-HVEC", "U-ESC"], bounded=[], findings=[]),
     "C16": dict(verus=["U-SM"], kani=["U-SEL", "U-STK"], bounded=[], findings=[]),
